@@ -588,7 +588,8 @@ def _(E, p):
     """Helpers that derive a transform parameter from the caller's array, and transforms that remember a scale from it."""
     from grid import rtransform as rt
 
-    x = E.arr("x", np.sort(_rs(140).uniform(-1, 1, 9 + p % 2)))
+    x = np.sort(_rs(140).uniform(-1, 1, 9 + p % 2))
+    x = E.arr("x", (x, x[::-1].copy(), _rs(141).permutation(x))[(p // 2) % 3])  # ascending / descending / any order
     out = [rt.BeckeRTransform.find_parameter(x, 0.1, 1.2 + 0.1 * (p % 3))]
     n = E.arr("n", np.arange(0.0, 12.0))
     for cls in (rt.LinearInfiniteRTransform, rt.ExpRTransform, rt.PowerRTransform):
